@@ -115,3 +115,13 @@ PROPS["C14"] = {"components": ["plugin"], "monitor_props": ["C14"], "trusted_bas
         "signature verification and recovery are the abstract scheme of C17; replies reach the model already classified (wrong signer / unparsable / ...)"],
     "assumptions": ["the classification of a reply by net::http (process_post_response, send_appointment) is total and panic-free: checked on the real binary for every reply kind of the scenarios (monitor no_answer), not proved for all byte strings"],
     "partial": "what the client does with each class of reply is proved; that no byte string makes the parsing layer itself panic is tested (non-JSON, wrong shape, empty, error objects, undecodable signature, wrong signer), not proved."}
+
+TB_HTTP = TB_TOWER + [
+    "the hand-written HTTP model (Model/Http.lean): routing, body limits, decoding-error categories, field validation, match_status; limits, error constants and the status table are regenerated from http.rs / errors.rs by the extractor on every run",
+    "modelled, not verified: warp's routing and rejection ranking, hyper, serde_json's error messages (the category of each single-fault body is compared on the real router), tonic transport between the HTTP front and the internal API",
+    "the harness' raw HTTP client and the loopback servers (tonic + teos::api::http::serve started as main.rs starts them)",
+]
+PROPS["C15"] = {"components": ["http"], "monitor_props": ["C15"], "trusted_base": TB_HTTP,
+    "assumptions": ["a body has at most one fault (serde reports the first problem it meets; which one is first depends on the key order, not modelled)",
+                    "the internal API answers success or one of the six gRPC codes of its four public handlers and does not abort (C11 covers the handlers)"],
+    "partial": "for request bodies that do not fall in one of the modelled fault categories (arbitrary bytes, several faults at once) the answer is checked on the real router by monitors only (documented status, JSON error with a documented code, never 255, tower dump unchanged), not proved; 'promptly' is measured (3 s bound)."}
